@@ -17,11 +17,14 @@ iteration order an explicit argument.  Proved:
                                      order / index / length / predecessor / union-find state and again set-equal
                                      enemy maps — so the relation is an invariant of any sequence of merges, and
                                      everything the partitioner reads (`subgraphs()`, `find`) is identical.
-PARTIAL: the lifting of that invariant through `find_subgraph_unionfind` to the final `partition_graph` output
-(`PartitionOrderInvariantStatement`) is not written out as a theorem; `as_code` and the Hydro-IR emission
-(`hydro_lang/src/compile/ir/mod.rs`) are not modelled: their hash containers are all keyed-lookup-only according
-to the scanner, and determinism of the real pipeline is checked by repeated in-process compilation (fresh
-`RandomState` per map) and by compiling in separate processes and comparing code + graph JSON byte for byte.
+The lifting of that invariant through `SubgraphMerge::new` and `find_subgraph_unionfind` to the final
+`partition_graph` output is `partition_hash_order_invariant` in `Props/C42Lift.lean` (the complete `Outcome` of the
+partitioner model is the same for every iteration order; the symmetric+irreflexive enemy-table invariant it needs is
+established by `new` and preserved by `try_merge`, so no hypothesis is left).
+NOT MODELLED: `as_code` and the Hydro-IR emission (`hydro_lang/src/compile/ir/mod.rs`): their hash containers are
+all keyed-lookup-only according to the scanner, and determinism of the real pipeline is checked by repeated
+in-process compilation (fresh `RandomState` per map) and by compiling in separate processes and comparing code +
+graph JSON byte for byte.
 -/
 import HvPart.Model.Merge
 import HvPart.Gen.HashSites
@@ -332,7 +335,9 @@ theorem tryMerge_hash_order_invariant (p1 p2 : List Nat → List Nat) (hp1 : IsO
       · simp only [hlt, if_false]
         exact aux_tail_invariant p1 p2 hp1 hp2 a b h _ _ hen'
 
-/-- full statement: the output of the partitioner does not depend on the iteration orders -/
+/-- the output of a merge sequence does not depend on the iteration orders (as first stated; it lacks the
+    enemy-table invariant on `sm`, so it is not provable in this form — the corrected and proved form, for the
+    whole partitioner from `SubgraphMerge::new` on, is `partition_hash_order_invariant`, Props/C42Lift.lean) -/
 def PartitionOrderInvariantStatement : Prop :=
   ∀ (p1 p2 : List Nat → List Nat), IsOrder p1 → IsOrder p2 →
     ∀ (sm : SM) (merges : List (Nat × Nat)),
